@@ -17,18 +17,30 @@ FIXTURES = [
     ("C18", "C18-B-strategy-memo-dict"),       # J4: nothing writes __dict__ outside __init__
     ("C04", "C04-B-new-recording-site"),       # A3: no unsanctioned recording site
     ("C14", "C14-B-forget-overrides-contains"),  # W3: shared logic not overridden
+    ("C03", "C03-B-foreign-function-writer"),  # F11: only the two wrappers write the function
+    ("C03", "C03-B-gap-cache-partial-invalidation"),  # F12: preimage_gap reads the histogram only
+    ("C11", "C11-B-forest-key-memoised"),      # E10: nothing memoises a key computed from arguments
+    ("C12", "C12-B-one-sided-pairing-memo"),   # B9: matcher state is keyed by pairs
+    ("C13", "C13-B-actual-rule-scan-filtered-by-raw-start"),  # K4: no raw-vs-representative shortcut
+    ("C09", "C09-B-quotient-mutates-parent-terms"),  # V11: provider results are not written to
 ]
 
 
 def run_all() -> int:
-    n = 0
+    from concurrent.futures import ProcessPoolExecutor
+
+    jobs = []
     for pid, vid in FIXTURES:
         cat = {v["id"]: v for v in mutants.catalogue(pid)}
         if vid not in cat:
             raise RuntimeError(f"fixture {vid} missing from the catalogue of {pid}")
-        vid_, status, msg = mutants._run_one((pid, cat[vid]))
+        jobs.append((pid, cat[vid]))
+    with ProcessPoolExecutor(max_workers=min(16, len(jobs))) as ex:
+        results = list(ex.map(mutants._run_one, jobs))
+    n = 0
+    for (pid, v), (vid_, status, msg) in zip(jobs, results):
         if status == "fail":
-            raise RuntimeError(f"fixture {vid}: {msg}")
+            raise RuntimeError(f"fixture {v['id']}: {msg}")
         if status == "ok":
             n += 1
     return n
